@@ -118,7 +118,7 @@ func c14Pop(r *rand.Rand) gen.PopOpts {
 func init() {
 	core.Register(&core.Prop{
 		ID: "C14", Level: "exploration",
-		Rule: "each case draws an ordered pair of nodes of one of six kinds (independent random nodes; single-attribute mutant at a reflection-enumerated site; equal copy with permuted set-valued attributes; empty-versus-absent collections; duplicated list elements; sub-second date change) " +
+		Rule: "each case draws an ordered pair of nodes of one of seven kinds (independent random nodes; single-attribute mutant at a reflection-enumerated site; equal copy with permuted set-valued attributes; empty-versus-absent collections; duplicated list elements; sub-second date change; map entries / list elements whose value is the empty string) " +
 			"and checks Diff(a,b) and Diff(b,a) against a reference comparator over ALL schema attributes found by reflection: nil iff no attribute differs (lists as sets, dates to the second), DiffCount == number of differing attributes, " +
 			"and apply(a, diff) reproduces b on every attribute. distinct = hash of the pair; non-trivial = at least one attribute differs.",
 		Assumptions: []string{"separator-free text (nested persons and external references are identified by their flattened strings: known finding C13 flatstring-separator-collision)", "no nil elements inside repeated message fields"},
@@ -137,14 +137,14 @@ func c14Case(c *core.C) {
 	o := c14Pop(r)
 	a := gen.Node(r, "id-a", o)
 	var b *sbom.Node
-	kind := []string{"independent", "single-mutant", "permuted-copy", "empty-vs-absent", "duplicates", "subsecond"}[c.K%6]
+	kind := []string{"independent", "single-mutant", "permuted-copy", "empty-vs-absent", "duplicates", "subsecond", "empty-valued-entries"}[c.K%7]
 	var mutPath string
 	switch kind {
 	case "independent":
 		b = gen.Node(r, gen.Pick(r, []string{"id-a", "id-b"}), c14Pop(r))
 	case "single-mutant":
 		b = gen.Clone(a)
-		mu := c13NodeMuts[(c.K/6)%len(c13NodeMuts)]
+		mu := c13NodeMuts[(c.K/7)%len(c13NodeMuts)]
 		if !gen.Apply(r, b.ProtoReflect(), mu, 0, o) {
 			// site absent in this instance: populate fully and retry
 			oo := o
@@ -187,6 +187,28 @@ func c14Case(c *core.C) {
 		}
 		if len(b.FileTypes) > 0 {
 			b.FileTypes = append(b.FileTypes, b.FileTypes[0])
+		}
+	case "empty-valued-entries":
+		// a map entry or list element whose value is the empty string is still an entry
+		b = gen.Clone(a)
+		switch r.Intn(4) {
+		case 0:
+			if b.Hashes == nil {
+				b.Hashes = map[int32]string{}
+			}
+			b.Hashes[int32(901+r.Intn(3))] = ""
+		case 1:
+			if b.Identifiers == nil {
+				b.Identifiers = map[int32]string{}
+			}
+			b.Identifiers[int32(901+r.Intn(3))] = ""
+		case 2:
+			b.Licenses = append(b.Licenses, "")
+		default:
+			for k := range b.Hashes {
+				b.Hashes[k] = ""
+				break
+			}
 		}
 	case "subsecond":
 		b = gen.Clone(a)
